@@ -457,7 +457,7 @@ def judge_c05(spec, hist, refs):
             continue
         if op["op"] == "new" and op.get("expect"):
             stats["i9_badnew"] += 1
-            if not (out[0] == "exc" and out[1] == op["expect"]):
+            if not (out[0] == "exc" and (out[1] == op["expect"] or op["expect"] in (out[4] if len(out) > 4 else ()))):
                 add("I9", i, op, {"kind": "bad-constructor", "expected": op["expect"],
                                   "got": list(out[:3]) if out[0] == "exc" else "constructed",
                                   "which": "missing" if op.get("missing") else "unknown", "kw": [k for k, _ in op.get("kw", {}).get("d", [])]})
